@@ -252,7 +252,7 @@ func init() {
 			}
 			plans := make([]plan, ng)
 			for g := range plans {
-				qs := &qtQueries{ks: []int{1, 3, 8}, mds: []int{0, 300}, filters: [][2]int{{1, 0}, {2, g % 2}}}
+				qs := &qtQueries{ks: []int{1, 3, 8}, mds: []int{0, 300}, filters: [][2]int{{1, 0}, {2, g % 2}}, rev: g%3 == 1} // some goroutines ask the filtered questions first
 				for i := 0; i < 6; i++ {
 					qs.pts = append(qs.pts, [2]int{c.rng.Intn(1025), c.rng.Intn(1025)})
 				}
